@@ -1,8 +1,8 @@
 \* C17 design-level check: copier walk (symlink budget) = expected output (cycle detection), all trees of the space
 SPECIFICATION Spec
 CONSTANTS
-  TargetIds = {1, 3, 4, 5, 7, 8, 9, 10, 11, 12, 13, 14, 15, 16}
-  MountModes = {"none", "outside", "beneath"}
-  SecretModes = {"none", "outside", "beneath"}
+  TargetIds = {1, 3, 4, 5, 7, 8, 9, 10, 11, 12, 13, 14, 15, 16, 17, 18, 19, 20}
+  MountCfgIds = {1, 2, 3, 4, 5, 6, 7}
+  SecretIds = {1, 2, 3, 4}
 INVARIANTS WalkRefinesExpected
 CHECK_DEADLOCK FALSE
